@@ -121,6 +121,11 @@ def msgpack_offenders(tier):
         d = dict(base)
         del d[k]
         add(msgpack.dumps(d))
+    for t in (0, 1, 2, 3):
+        # every packet kind without the namespace field
+        add(msgpack.dumps({'type': t, 'data': ['ev', 1] if t > 1 else None,
+                           'id': 1}))
+        add(msgpack.dumps({'type': t}))
     add(msgpack.dumps(5))
     add(msgpack.dumps([1, 2]))
     add(msgpack.dumps('str'))
@@ -276,6 +281,19 @@ def run_script(is_async, serializer, offender, pos):
                         w.sio.packet_class(encoded_packet=f)
                     except Exception:
                         undecodable = True
+                if serializer == 'msgpack' and not undecodable:
+                    # the msgpack parser of the reference implementation
+                    # requires the namespace field (a string); a map
+                    # without it is not a packet
+                    try:
+                        import msgpack
+                        m = msgpack.loads(f) if isinstance(
+                            f, (bytes, bytearray)) else None
+                        if isinstance(m, dict) and 'type' in m and \
+                                'nsp' not in m:
+                            undecodable = True
+                    except Exception:
+                        pass
                 # the reference codec's view of a binary packet in flight:
                 # completed by this frame and not reconstructible?
                 if serializer == 'default':
@@ -431,6 +449,16 @@ def run(tier, seed, result):
             for combo in itertools.product(fr, repeat=n + 1):
                 if sum(isinstance(x, str) for x in combo) == 1:
                     seqs.append([hdr] + list(combo))
+        # complete binary packets (all announced attachments delivered)
+        # whose placeholders carry every kind of bad index
+        for num in ('-1', '1', '2', '5', '1e3', '1.0', '0.0', '"0"', 'null',
+                    '[0]', 'true', 'false', '{}', '99999999999999999999'):
+            ph = '{"_placeholder":true,"num":%s}' % num
+            ok0 = '{"_placeholder":true,"num":0}'
+            seqs.append(['51-["ev",%s]' % ph, b'X'])
+            seqs.append(['52-["ev",%s,%s]' % (ph, ok0), b'X', b'Y'])
+            seqs.append(['52-["ev",%s,{"k":[%s]}]' % (ok0, ph), b'X', b'Y'])
+            seqs.append(['61-1[%s]' % ph, b'X'])
         for chunk in _chunks(seqs, 150):
             jobs.append((is_async, 'default', chunk, pos_seq))
         for chunk in _chunks([[f] for f in mp], 100):
